@@ -380,6 +380,15 @@ func c15World(t *testing.T, r *simcore.Run) any {
 			// stickiness and reset
 			for i := range clients {
 				if !inIL[i] {
+					// "otherwise reset together with its filter": a client that is not in interleaved
+					// mode starts every round afresh
+					if _, took := pathOf[i]; took && filters[i].resets == resets0[i] {
+						r.Fail("C15", "sticky/not-reset-outside-interleaved-mode", "%s: client %d was not in interleaved mode before the round, took part, and its filter was not reset", line, i)
+						return
+					}
+					if _, took := pathOf[i]; took {
+						r.Probe("reset-outside-interleaved-mode")
+					}
 					continue
 				}
 				j, offeredStill := offeredFP[prevFP[i]]
